@@ -703,6 +703,10 @@ static void pre_state(void)
 		int isyank = (e->kind == E_OPM || e->kind == E_OPOP) && e->op == 'y';
 		if (r == 1)
 			S = before;
+		/* a yank returns without refreshing the column remembered for j / k (vi() refreshes it only
+		 * after commands that report a change); the reference follows that convention */
+		if (isyank || e->kind == E_Y)
+			S.c.xcol = before.c.xcol;
 		if (r == 2) {
 			/* conventions left open (text commands in an empty buffer): follow the editor */
 			nx_bound = nx_depth;
@@ -730,6 +734,15 @@ static void pre_state(void)
 			state_bad = 1;
 		}
 done:
+		if (r == 3 && !state_bad) {
+			/* cursor convention left open (multi-line character-wise put): follow the editor,
+			 * whose cursor pre_state() has already found to be on an existing character */
+			struct rvbuf vb;
+			S.c.r = xrow;
+			S.c.o = xoff;
+			rt_view(&S.t, &vb);
+			S.c.xcol = rv_col(&vb, xrow, xoff);
+		}
 		if (isyank || e->kind == E_Y)
 			resync_numbered(&S);
 		__sync_fetch_and_add(&nx_sh->hist[r == 1 ? 1 : 0], 1);
@@ -855,7 +868,9 @@ int main(int argc, char **argv)
 			continue;
 		if ((idx++ % nv_nshards) == nv_shard)
 			run_config(b, 0, 0, d, 1, 0);
-		if (nv_thorough && (idx++ % nv_nshards) == nv_shard)
+		struct rvbuf tb;
+		rv_load(&tb, buftexts[b]);
+		if (nv_thorough && tb.n > 1 && (idx++ % nv_nshards) == nv_shard)
 			run_config(b, 1, 0, d, 1, 0);
 	}
 	/* pairs over the full alphabet */
